@@ -1,10 +1,11 @@
 (* Spec/Inflate.v: the statements that are meant to be cited (each closed by [exact] or a short
    instantiation, with Print Assumptions beneath).
-   Proofs: Proofs/InflateFuel.v (termination), Proofs/InflateStored.v (Adler-32, match copier, stored round trip). *)
+   Proofs: Proofs/InflateFuel.v (termination), Proofs/InflateStored.v (Adler-32, match copier, stored round trip),
+   Proofs/InflateHuffman.v (canonical codes). *)
 From BT Require Import Base.Util Base.LE Base.Float Generated.Consts Model.RTree Model.BBIFile Model.BigWigWrite Model.BigWigWriteZ
   Proofs.RTreeCodec Proofs.FileRegions Proofs.BigWigFile Proofs.BigWigFileData Proofs.BigWigFileRoundTrip Proofs.ZoomBwLevels
   Spec.FormatDecode Proofs.C09Base Proofs.C09Data Proofs.C09Whole
-  Spec.Inflate Proofs.InflateFuel Proofs.InflateStored.
+  Spec.Inflate Proofs.InflateFuel Proofs.InflateStored Proofs.InflateHuffman.
 Local Open Scope N_scope.
 
 (* ---------- totality: fuel exhaustion is a constructor of its own and is never returned ---------- *)
@@ -60,6 +61,23 @@ Theorem distance_codes_in_range : forall i s d s1, base_extra dist_table E_DCODE
 Proof. exact dist_table_bound. Qed.
 Print Assumptions length_codes_in_range.
 Print Assumptions distance_codes_in_range.
+
+(* ---------- Huffman codes: the tree [build] makes from a list of code lengths decodes exactly the canonical code of
+   RFC 1951 3.2.2 — for every symbol of non-zero length l, the l bits of next_code[l] + (number of smaller symbols
+   of length l), most significant first, followed by anything, are read as that symbol and nothing more is consumed;
+   hence no code word is a prefix of another symbol's ---------- *)
+Theorem huffman_tree_decodes_canonical_code : forall kind bad lens t, build kind bad lens = Ok t ->
+  forall sym l, nth_error lens sym = Some l -> l <> 0 ->
+  forall r rest, hwalk t (code_bits (N.to_nat l) (canonical_code lens sym) ++ r, rest) = Ok (N.of_nat sym, (r, rest)).
+Proof. exact build_decodes_canonical. Qed.
+Print Assumptions huffman_tree_decodes_canonical_code.
+
+Theorem huffman_canonical_code_prefix_free : forall kind bad lens t, build kind bad lens = Ok t ->
+  forall s1 s2 l1 l2 tail, nth_error lens s1 = Some l1 -> nth_error lens s2 = Some l2 -> l1 <> 0 -> l2 <> 0 ->
+  code_bits (N.to_nat l1) (canonical_code lens s1) ++ tail = code_bits (N.to_nat l2) (canonical_code lens s2) ->
+  s1 = s2.
+Proof. exact canonical_prefix_free. Qed.
+Print Assumptions huffman_canonical_code_prefix_free.
 
 (* ---------- the stored-block encoder round-trips, for EVERY byte list ---------- *)
 (* header 0x78 0x01; blocks of at most 65535 bytes, the last one final; Adler-32.  No hypothesis on the
@@ -168,7 +186,23 @@ Definition ex_input : list item :=
 Example C09_zlib_stored_file_example : exists bs ids outs sum data,
   bw_write_z zlib_store ieee ex_opts ex_sizes ex_input = Ok bs
   /\ bw_collect ieee ex_opts ex_sizes ex_input = Ok (ids, outs, sum, data)
-  /\ decode bs (zlib_inflate_at bs) = Some (content_of ieee ex_opts ex_sizes ids outs sum 64 [5; 40]).
+  /\ opts_ok ex_opts /\ input_ok ex_sizes ex_input /\ Nlen bs < U64
+  /\ Forall (fun c : name => c <> []) (map fst (runs ex_input)) /\ o_sort_all ex_opts = true
+  /\ Forall (fun z => z < W32) (zoom_sizes_single ex_opts)
+  /\ decode bs (zlib_inflate_at bs) = Some (content_of ieee ex_opts ex_sizes ids outs sum 64 [5; 40])
+  /\ Nlen bs = 1441.
 Proof.
-  do 5 eexists. split; [vm_compute; reflexivity|]. split; [vm_compute; reflexivity|]. vm_compute. reflexivity.
+  do 5 eexists. split; [vm_compute; reflexivity|]. split; [vm_compute; reflexivity|].
+  split; [unfold opts_ok, ex_opts; cbn [o_bs o_ips]; lia|].
+  split.
+  { unfold input_ok. change (runs ex_input) with
+      [([97], [{| v_start := 0; v_end := 5; v_bits := 1065353216 |}; {| v_start := 5; v_end := 12; v_bits := 1073741824 |};
+                {| v_start := 20; v_end := 30; v_bits := 1056964608 |}]); ([98], [{| v_start := 3; v_end := 4; v_bits := 1065353216 |}])].
+    cbn [map fst]. unfold BigWigFileChroms.no_zero, U16, U32, ex_sizes, ex_input.
+    repeat match goal with |- _ /\ _ => split end;
+      repeat (constructor; cbn [fst snd v_bits]; try (repeat split); try (repeat constructor); try lia; try discriminate). }
+  split; [vm_compute; reflexivity|].
+  split; [cbn; repeat constructor; discriminate|]. split; [reflexivity|].
+  split; [apply Forall_forall; intros z Hz; vm_compute in Hz; unfold W32; destruct Hz as [<-|[<-|[]]]; lia|].
+  split; vm_compute; reflexivity.
 Qed.
